@@ -25,8 +25,9 @@ def run(pid, tier, seed):
         raise vlib.Inconclusive("vacuity guard: a watcher that does not restore the deadline should violate NoLeftoverDeadline")
     rep.notes.append("vacuity guard: MC_NetCtxBroken violates NoLeftoverDeadline as expected")
     big = tier == "thorough"
-    scs = [{"kind": k, "dir": d_, "ops": ops, "feeds": 2}
-           for k in ("conn", "connctx", "pconn") for d_ in ("r", "w") for ops in ((2,) if not big else (2, 3))]
+    scs = [{"kind": k, "dir": d_, "ops": ops, "feeds": 2, "deadline": dl}
+           for k in ("conn", "connctx", "pconn") for d_ in ("r", "w") for ops in ((2,) if not big else (2, 3))
+           for dl in (False, True)]
     d = vlib.scratch("ctx-")
     scen = os.path.join(d, "scen.ndjson")
     with open(scen, "w") as f:
